@@ -1,5 +1,7 @@
-// sqlquery: GROUNDWORK for C26 (not a registered check yet: no Lean model / theorems / driver).
+// sqlquery: correspondence + property oracle for C26.
 //
+// Stream "kernel" (kernel.go): the executor kernels below SQL vs the Lean model.
+// Stream "sql" (this file):
 // The property's own oracle: generated data (NULL-heavy, duplicate-heavy, ints + short strings) and
 // generated read queries (range filters, IN lists, IS [NOT] NULL, AND/OR, joins on indexed and
 // unindexed columns, count/sum/min/max with GROUP BY, ORDER BY + LIMIT) run on dolt (sqleng) and on
@@ -28,7 +30,7 @@ type qcase struct {
 	Queries []string `json:"queries"`
 }
 
-func val(r *hx.Rng, nullPct int) string {
+func ival(r *hx.Rng, nullPct int) string {
 	if r.Intn(100) < nullPct {
 		return "NULL"
 	}
@@ -51,13 +53,13 @@ func gen(r *hx.Rng) qcase {
 	n := r.Range(5, 40)
 	var rows []string
 	for i := 0; i < n; i++ {
-		rows = append(rows, fmt.Sprintf("(%d,%s,%s,%s,%d)", i*2-7, val(r, np), val(r, np), sval(r, np), i))
+		rows = append(rows, fmt.Sprintf("(%d,%s,%s,%s,%d)", i*2-7, ival(r, np), ival(r, np), sval(r, np), i))
 	}
 	c.Setup = append(c.Setup, "insert into t values "+strings.Join(rows, ","))
 	rows = nil
 	m := r.Range(3, 25)
 	for i := 0; i < m; i++ {
-		rows = append(rows, fmt.Sprintf("(%d,%s,%s,%s)", i, val(r, np), val(r, np), sval(r, np)))
+		rows = append(rows, fmt.Sprintf("(%d,%s,%s,%s)", i, ival(r, np), ival(r, np), sval(r, np)))
 	}
 	c.Setup = append(c.Setup, "insert into r values "+strings.Join(rows, ","))
 	c.Indexes = []string{"create index ia on t (a)", "create index iab on t (a, b)", "create index isx on t (s)", "create unique index iu on t (u)",
@@ -75,17 +77,17 @@ func gen(r *hx.Rng) qcase {
 		case 1:
 			return fmt.Sprintf("%s is not null", col)
 		case 2:
-			return fmt.Sprintf("%s in (%s, %s, %s)", col, val(r, 15), val(r, 0), val(r, 0))
+			return fmt.Sprintf("%s in (%s, %s, %s)", col, ival(r, 15), ival(r, 0), ival(r, 0))
 		case 3:
-			return fmt.Sprintf("%s between %s and %s", col, val(r, 5), val(r, 5))
+			return fmt.Sprintf("%s between %s and %s", col, ival(r, 5), ival(r, 5))
 		case 4:
 			return fmt.Sprintf("%s.s %s %s", tbl, hx.Pick(r, []string{"=", "<", ">=", "<>"}), sval(r, 5))
 		case 5:
-			return fmt.Sprintf("%s not in (%s, %s)", col, val(r, 10), val(r, 0))
+			return fmt.Sprintf("%s not in (%s, %s)", col, ival(r, 10), ival(r, 0))
 		case 6:
-			return fmt.Sprintf("%s <=> %s", col, val(r, 40))
+			return fmt.Sprintf("%s <=> %s", col, ival(r, 40))
 		}
-		return fmt.Sprintf("%s %s %s", col, hx.Pick(r, []string{"<", "<=", "=", ">=", ">", "<>"}), val(r, 8))
+		return fmt.Sprintf("%s %s %s", col, hx.Pick(r, []string{"<", "<=", "=", ">=", ">", "<>"}), ival(r, 8))
 	}
 	var pred func(tbl string, d int) string
 	pred = func(tbl string, d int) string {
@@ -153,7 +155,7 @@ func render(res *sqleng.Result, ord bool) string {
 
 var seq int
 
-func run(e *hx.Env, c qcase) {
+func run(e *hx.Env, m *hx.Model, c qcase) {
 	seq++
 	out := hx.Recover(func() string {
 		dir := filepath.Join(e.Scratch, fmt.Sprintf("q%d", seq))
@@ -176,6 +178,7 @@ func run(e *hx.Env, c qcase) {
 					mem.MustExec(q)
 				}
 			}
+			modelJoinCount(e, m, s, mem, fmt.Sprintf("indexes=%v", pass == 1), c.Setup)
 			for _, q := range c.Queries {
 				ord := ordered(q)
 				d := s.Exec(q)
@@ -184,13 +187,27 @@ func run(e *hx.Env, c qcase) {
 				e.Rep.Count(fmt.Sprintf("%d|%s|%s", pass, strings.Join(c.Setup[2:], ";"), q), true)
 				if d.Err != nil || g.Err != nil {
 					e.Rep.Hit("error:" + fmt.Sprint(d.Err != nil) + "/" + fmt.Sprint(g.Err != nil))
-					if (d.Err != nil) != (g.Err != nil) {
-						e.Rep.Disagree(map[string]any{"setup": c.Setup, "indexes": pass == 1, "query": q}, fmt.Sprint(d.Err), fmt.Sprint(g.Err), "one engine fails")
+					if d.Err != nil && g.Err == nil {
+						// the reference engine answers, dolt does not: the property is violated on this input
+						key := "query/dolt-error"
+						if strings.Contains(d.Err.Error(), "cannot write NULL to non-NULL field") {
+							key = nullKeyPanicKey // confirmed defect (CLI replay in design/C26.md)
+						}
+						e.Rep.Violate(key, fmt.Sprintf("dolt fails on %q (indexes=%v) where the reference engine returns %d rows: %v", q, pass == 1, len(g.Rows), d.Err),
+							qcase{Setup: c.Setup, Indexes: pick(pass == 1, c.Indexes), Queries: []string{q}})
+					} else if d.Err == nil && g.Err != nil {
+						e.Rep.Disagree(map[string]any{"setup": c.Setup, "indexes": pass == 1, "query": q}, "ok", fmt.Sprint(g.Err), "the reference engine fails, dolt answers")
 					}
 					continue
 				}
 				if rd != rg {
-					e.Rep.Violate("query/rows", fmt.Sprintf("dolt and the reference engine disagree (indexes=%v) on %q:\ndolt: %s\nref:  %s", pass == 1, q, qx.Short(strings.ReplaceAll(rd, "\n", " ; "), 500), qx.Short(strings.ReplaceAll(rg, "\n", " ; "), 500)),
+					key := "query/rows"
+					if pl := s.Exec("explain plan " + q); pl.Err == nil && strings.Contains(qx.JoinRows(pl.Rows), "LeftOuterMergeJoin") {
+						// confirmed defect (CLI replay in design/C26.md): the left-outer merge join drops the
+						// look-ahead right row after emitting a NULL-extended row for a left key whose successor is equal
+						key = leftMergeKey
+					}
+					e.Rep.Violate(key, fmt.Sprintf("dolt and the reference engine disagree (indexes=%v) on %q:\ndolt: %s\nref:  %s", pass == 1, q, qx.Short(strings.ReplaceAll(rd, "\n", " ; "), 500), qx.Short(strings.ReplaceAll(rg, "\n", " ; "), 500)),
 						qcase{Setup: c.Setup, Indexes: pick(pass == 1, c.Indexes), Queries: []string{q}})
 					continue
 				}
@@ -234,19 +251,112 @@ func main() {
 	e := hx.Init("sqlquery", "C26")
 	defer e.Finish()
 	e.Rep.Rule = "data: two tables, 5–40 / 3–25 rows, 10/30/50% NULLs, values from a 17-element pool (duplicates, INT extremes), short strings incl. case/space variants; queries: 24 per data set from the grammar (range/IN/NOT IN/BETWEEN/IS NULL/<=>/AND/OR/NOT, ORDER BY+LIMIT, count(*), GROUP BY aggregates, inner/left joins on indexed and unindexed columns, two-column join, IN/EXISTS/scalar subqueries), each run without and with secondary indexes; distinct by (pass, data, query)"
+	m := e.MustModel()
+	defer m.Close()
 	if e.Replay != "" {
 		rf, err := hx.LoadReplay(e.Replay)
 		if err != nil {
 			panic(err)
 		}
+		var probe struct {
+			Stream string `json:"stream"`
+		}
+		json.Unmarshal(rf.Case, &probe)
+		if probe.Stream == "kernel" {
+			var k kcase
+			json.Unmarshal(rf.Case, &k)
+			runKernel(e, m, k)
+			return
+		}
 		var c qcase
 		json.Unmarshal(rf.Case, &c)
 		c.Setup = append(c.Setup, c.Indexes...)
 		c.Indexes = nil
-		run(e, c)
+		run(e, m, c)
 		return
 	}
-	for i, n := 0, e.N(12, 400); i < n; i++ {
-		run(e, gen(e.Rng))
+	leftMergeWitness(e)
+	nullKeyPanicWitness(e)
+	for _, raw := range e.CorpusCases() {
+		var k kcase
+		if json.Unmarshal(raw, &k) == nil && k.Stream == "kernel" {
+			runKernel(e, m, k)
+		}
+	}
+	for i, n := 0, e.N(40, 3000); i < n; i++ {
+		runKernel(e, m, genKernel(e.Rng))
+	}
+	for i, n := 0, e.N(6, 300); i < n; i++ {
+		run(e, m, gen(e.Rng))
+	}
+}
+
+const leftMergeKey = "mergejoin/left-outer-equal-left-keys-lose-lookahead"
+
+// leftMergeWitness replays the minimal input of the confirmed left-outer merge join defect on every run.
+func leftMergeWitness(e *hx.Env) {
+	c := qcase{Setup: []string{"create table t (pk int primary key, a int, key ia (a))", "create table r (id int primary key)",
+		"insert into t values (1,2),(47,2),(25,3)", "insert into r values (2),(3)"},
+		Queries: []string{"select /*+ MERGE_JOIN(t,r) */ t.pk, r.id from t left join r on t.a = r.id and r.id = 3"}}
+	out := hx.Recover(func() string {
+		dir := filepath.Join(e.Scratch, "witness")
+		defer os.RemoveAll(dir)
+		eng, err := sqleng.New(dir, sqleng.Options{})
+		if err != nil {
+			return "engine: " + err.Error()
+		}
+		defer eng.Close()
+		s, _ := eng.NewSession()
+		mem := qx.NewMem()
+		for _, q := range c.Setup {
+			s.MustExec(q)
+			mem.MustExec(q)
+		}
+		d, g := s.Exec(c.Queries[0]), mem.Exec(c.Queries[0])
+		rd, rg := render(d, false), render(g, false)
+		e.Rep.Hit("witness:left-merge-join:" + fmt.Sprint(rd == rg))
+		if rd != rg {
+			e.Rep.Violate(leftMergeKey, fmt.Sprintf("left outer merge join loses a match: %q returns %s, reference %s", c.Queries[0],
+				strings.ReplaceAll(rd, "\n", " ; "), strings.ReplaceAll(rg, "\n", " ; ")), c)
+		}
+		return ""
+	})
+	if out != "" {
+		e.Rep.Violate("query/failure", out, c)
+	}
+}
+
+const nullKeyPanicKey = "lookupjoin/null-safe-equal-on-not-null-key-panics"
+
+// nullKeyPanicWitness replays the minimal input of the confirmed lookup-join panic on every run.
+func nullKeyPanicWitness(e *hx.Env) {
+	c := qcase{Setup: []string{"create table t (pk int primary key, b int)", "create table r (id int primary key, a int)",
+		"insert into t values (1,1),(2,NULL),(3,5)", "insert into r values (1,1),(2,2),(3,NULL)"},
+		Queries: []string{"select /*+ LOOKUP_JOIN(t,r) */ t.pk, r.id from t left join r on t.b = r.a and r.id <=> NULL"}}
+	out := hx.Recover(func() string {
+		dir := filepath.Join(e.Scratch, "witness2")
+		defer os.RemoveAll(dir)
+		eng, err := sqleng.New(dir, sqleng.Options{})
+		if err != nil {
+			return "engine: " + err.Error()
+		}
+		defer eng.Close()
+		s, _ := eng.NewSession()
+		mem := qx.NewMem()
+		for _, q := range c.Setup {
+			s.MustExec(q)
+			mem.MustExec(q)
+		}
+		d, g := s.Exec(c.Queries[0]), mem.Exec(c.Queries[0])
+		e.Rep.Hit("witness:null-key-panic:" + fmt.Sprint(d.Err == nil))
+		if d.Err != nil && g.Err == nil {
+			e.Rep.Violate(nullKeyPanicKey, fmt.Sprintf("dolt fails on %q where the reference engine returns %d rows: %v", c.Queries[0], len(g.Rows), d.Err), c)
+		} else if d.Err == nil && g.Err == nil && render(d, false) != render(g, false) {
+			e.Rep.Violate("query/rows", "witness query answers differently: "+render(d, false)+" vs "+render(g, false), c)
+		}
+		return ""
+	})
+	if out != "" {
+		e.Rep.Violate("query/failure", out, c)
 	}
 }
